@@ -463,29 +463,9 @@ fn mech_narrow(tbl: &Tbl, op: &str, a: usize, b: usize) -> Option<&'static str> 
             }
         }
     }
-    // (vi) the partial-vs-partial arm of intersect_pair (02d463a) copies the fields only ONE operand has
-    // into the result; when that operand is a VARIANT taken out of its union, a `Cycle` in such a field
-    // loses its union boundary and re-binds to the new partial type
-    if op == "intersect" {
-        let part_variants = |root: usize| -> Vec<Vec<(String, usize)>> {
-            if !matches!(tbl.types.get(root), Some(Type::Union(_))) {
-                return vec![];
-            }
-            variants_of(tbl, root).iter().filter_map(|i| match tbl.types.get(*i) { Some(Type::Partial { fields, .. }) => Some(fields.clone()), _ => None }).collect()
-        };
-        let all_parts = |r: &BTreeSet<usize>| -> Vec<Vec<(String, usize)>> {
-            r.iter().filter_map(|i| match tbl.types.get(*i) { Some(Type::Partial { fields, .. }) => Some(fields.clone()), _ => None }).collect()
-        };
-        for (mine, other) in [(part_variants(a), all_parts(&rb)), (part_variants(b), all_parts(&ra))] {
-            for f1 in &mine {
-                for f2 in &other {
-                    if f1.iter().any(|(l, t)| !f2.iter().any(|(l2, _)| l2 == l) && reach_has_cycle(tbl, &[*t])) {
-                        return Some("narrow=partial-intersection-copies-back-reference-out-of-its-union");
-                    }
-                }
-            }
-        }
-    }
+    // (vi) R8 (the partial-vs-partial arm copying a back-reference out of its union) is fixed by 7120dc6:
+    // the arm is not taken when an operand contains a `Cycle`, so no generated pair can show it any
+    // more; the corpus entries R8a / R8b report a regression under its signature.
     // (v) the same through the partial-vs-partial arm of intersect_pair (notes/C02-fixes/15): a field both
     // partial types name is intersected field-wise, which rebuilds a cyclic field union
     if op == "intersect" {
